@@ -127,7 +127,7 @@ def _run_crosshair(path, line, cond, pathlog, env_extra):
     env["PYTHONPATH"] = ROOT + os.pathsep + env.get("PYTHONPATH", "")
     env["PYTHONHASHSEED"] = "0"
     t0 = time.time()
-    wall = int(cond.timeout * 1.6) + 60
+    wall = int(cond.timeout * 4) + 120  # generous: the CPU budget is what bounds the search, wall time depends on the load
     try:
         p = subprocess.run(cmd, capture_output=True, text=True, timeout=wall, env=env, cwd=os.path.dirname(path))
         out, err, rc = p.stdout, p.stderr, p.returncode
